@@ -5,8 +5,32 @@ import ServiceModel.Model.Binding
 -/
 namespace SM
 
-def sortReqIds (l : List ReqId) : List ReqId := l.mergeSort (fun a b => a.le b)
-def sortCtxIds (l : List CtxId) : List CtxId := l.mergeSort (fun a b => a.le b)
+/-- insertion sort (structural recursion, so that closed instances of the model evaluate in the kernel);
+    the lists sorted here are the pending requests of one batch and the contexts queued at one height -/
+def insertBy {α : Type} (le : α → α → Bool) (a : α) : List α → List α
+  | [] => [a]
+  | b :: t => if le a b then a :: b :: t else b :: insertBy le a t
+
+def isort {α : Type} (le : α → α → Bool) : List α → List α
+  | [] => []
+  | a :: t => insertBy le a (isort le t)
+
+theorem insertBy_perm {α : Type} (le : α → α → Bool) (a : α) (l : List α) : (insertBy le a l).Perm (a :: l) := by
+  induction l with
+  | nil => exact List.Perm.refl _
+  | cons b t ih =>
+    unfold insertBy
+    split
+    · exact List.Perm.refl _
+    · exact (List.Perm.cons b ih).trans (List.Perm.swap a b t)
+
+theorem isort_perm {α : Type} (le : α → α → Bool) (l : List α) : (isort le l).Perm l := by
+  induction l with
+  | nil => exact List.Perm.refl _
+  | cons a t ih => exact (insertBy_perm le a _).trans (List.Perm.cons a ih)
+
+def sortReqIds (l : List ReqId) : List ReqId := isort (fun a b => a.le b) l
+def sortCtxIds (l : List CtxId) : List CtxId := isort (fun a b => a.le b) l
 
 /-! ### queue primitives (each queue has an entry set and a per-context height pointer) -/
 def addNewQ (s : State) (c : CtxId) (h : Int) : State :=
